@@ -895,6 +895,28 @@ def address_family_from_byte(src):
     return em.blk(parse_body(body))
 
 
+def xor_addr_fn(src):
+    """XorSocketAddr::xor_addr: which constant is XORed onto the port and onto the address bytes of each family"""
+    txt = src.get(TYPED_DIR + "address.rs")
+    imp = impl_body(txt, r"impl\s+XorSocketAddr\s*\{")
+    body = fn_body(imp or "", r"pub\s+fn\s+xor_addr\s*\(\s*addr\s*:\s*SocketAddr\s*,\s*transaction\s*:\s*TransactionId\s*\)\s*->\s*SocketAddr\s*\{")
+    if body is None:
+        raise XlateError("XorSocketAddr::xor_addr not found")
+    ab = fn_body(imp or "", r"pub\(crate\)\s+fn\s+addr\s*\(\s*&self\s*,\s*transaction\s*:\s*TransactionId\s*\)\s*->\s*SocketAddr\s*\{")
+    if ab is None or re.sub(r"\s+", "", ab) != "XorSocketAddr::xor_addr(self.addr.addr(),transaction)":
+        raise XlateError("XorSocketAddr::addr shape")
+    em = Emitter(
+        exprs=[("addr.port()", "a.port"), ("addr.ip().octets()", "a.ip"), ("addr", "a.v6"), ("MAGIC_COOKIE.to_be_bytes()", "(encBE 4 magicCookie)"),
+               ("MAGIC_COOKIE", "magicCookie"), ("transaction.into()", "tid"), ("$x.to_be_bytes()", "(encBE 16 $x)"),
+               ("bytewise_xor!(4, const_octets, addr_octets, 0)", "(xorBytes const_octets addr_octets)"),
+               ("bytewise_xor!(16, const_octets, addr_octets, 0)", "(xorBytes const_octets addr_octets)"),
+               ("SocketAddr::new(IpAddr::V4(Ipv4Addr::from(octets)), port)", "(Addr.mk false octets port)"),
+               ("SocketAddr::new(IpAddr::V6(Ipv6Addr::from(octets)), port)", "(Addr.mk true octets port)")],
+        pats=[("SocketAddr::V4(addr)", "false"), ("SocketAddr::V6(addr)", "true")],
+        state=None, ret="{v}", locals_=["transaction"])
+    return em.blk(parse_body(body))
+
+
 def req_mut(src, name):
     txt = src.get(AGENT)
     imp = impl_body(txt, r"impl\s*<'a>\s*StunRequestMut<'a>\s*\{")
@@ -1021,6 +1043,7 @@ def items(src):
         return f
     yield ("FnTyped", "pwAlgosWalk", "(raw : RawAttr) (__f : Nat) (i : Nat) (algorithms : List Nat) : Except PErr AttrVal", pwa_part("loop"), None)
     yield ("FnTyped", "fromRawPasswordAlgorithms", "(raw : RawAttr) : Except PErr AttrVal", pwa_part("entry"), None)
+    yield ("FnXor", "xorAddr", "(a : Addr) (tid : Nat) : Addr", lambda: xor_addr_fn(src), None)
     yield ("FnMsg", "attrHeaderParse", "(data : Bytes) : Except PErr (Nat × Nat)", lambda: decoder(src, "attr_header"), None)
     yield ("FnMsg", "rawFromBytes", "(data : Bytes) : Except PErr RawAttr", lambda: decoder(src, "raw"), None)
     yield ("FnMsg", "msgTypeFromBytes", "(data : Bytes) : Except PErr Nat", lambda: decoder(src, "mtype"), None)
@@ -1080,6 +1103,7 @@ HEADERS = {
     "FnWrite": ["import StunVerif.Msg.Builder", "import StunVerif.Gen.MsgType", "namespace StunVerif.Gen", "open StunVerif", "",
                 "/-- `dest[off..off+src.len()].copy_from_slice(src)` / `BigEndian::write_*(&mut dest[off..off+n], v)` on a destination that is long enough -/",
                 "def put (dest : Bytes) (off : Nat) (src : Bytes) : Bytes := dest.take off ++ src ++ dest.drop (off + src.length)", ""],
+    "FnXor": ["import StunVerif.Attr.Addr", "import StunVerif.Gen.MsgType", "namespace StunVerif.Gen", "open StunVerif", ""],
     "FnMsg": ["import StunVerif.Msg.IterState", "import StunVerif.Gen.MsgType", "namespace StunVerif.Gen", "open StunVerif", ""],
     "FnBuilder": ["import StunVerif.Msg.Builder", "namespace StunVerif.Gen", "open StunVerif", ""],
     "FnIntegrity": ["import StunVerif.Msg.ValidateLeaves", "import StunVerif.Gen.MsgType", "namespace StunVerif.Gen", "open StunVerif", ""],
